@@ -366,7 +366,8 @@ def xlockLine (s : HistState) (t : List String) : Option String :=
       else if auth = 1 then pure "err MissingOrInvalidDelegate"
       else if pos.liq = 0 then pure "err PositionNotLockable"
       else if follow == "none" then pure "ok none ok"
-      else if follow == "dec" || follow == "close" || follow == "reset" || follow == "repo" || follow == "lock2" then pure s!"ok {follow} rej"
+      else if follow == "dec" || follow == "close" || follow == "reset" || follow == "repo" || follow == "lock2" ||
+          follow == "xferm" || follow == "xfers" || follow == "xferl" then pure s!"ok {follow} rej"
       else if follow == "inc" then
         match histStep { s with vaultA := U128_MAX, vaultB := U128_MAX } (.modify id 1 true) with
         | .error _ => pure "ok inc rej"
